@@ -160,7 +160,8 @@ Definition order_ok (k : case) : bool :=
   end.
 
 (** (3) idempotence: reconciling a pod again, with no foreign update since its last reconcile,
-    issues no mutating call *)
+    issues no mutating call — for every pod (C18_idempotent, C18_idempotent_interleaved): pods with a stale
+    sub-group label and pods that are their own grouping object are regression inputs of 3f1c7d2 / 8227120 *)
 Definition idem_run_ok (r : runrec) : bool :=
   snd (fold_left (fun acc e =>
                     match fst e with
